@@ -88,6 +88,64 @@ var extractTypes = []interface{}{
 	recCustom{}, recCustomPair{}, nestEmpty{}, embPtr{}, customList{}, holdCustomList{},
 	[]zoo.Small{}, []*zoo.Node{}, [][]zoo.Item{}, map[string]*zoo.Ping{}, map[string][]zoo.Custom{}, zoo.Nodes{},
 	keyBoard{}, map[keyCell]*keyStone{}, map[keyCell][]keyStone{},
+	embCustom{}, embCustomPtr{}, ifaceChain{}, twoLists{}, eventT{}, ptrNamed{}, holdPtrNamed{}, recTree{}, recMap{}, holdRec{}, bothSlices{},
+}
+
+// []T and []*T in one value: the library gives both the wire name "[T" (known finding KF-C16-sliceNameCollision)
+type bothSlices struct {
+	V []zoo.Item
+	P []*zoo.Item
+}
+
+// a struct that EMBEDS a custom-named struct declares no name of its own (the method is only promoted)
+type embCustom struct {
+	zoo.Custom
+	Name string
+}
+type embCustomPtr struct {
+	*zoo.Custom
+	Name string
+}
+
+// the same struct type twice in one value, each instance holding other types behind interfaces
+type ifaceChain struct {
+	Items []interface{}
+	Next  *ifaceChain
+}
+
+// two slices of different length over one array (special witnesses)
+type twoLists struct {
+	P []interface{}
+	Q []interface{}
+}
+
+// a user type that shares its name with a type inside time.Time
+type Location struct {
+	City string
+	Sub  zoo.Small
+}
+type eventT struct {
+	When  time.Time
+	Where Location
+}
+
+// a custom name declared on the pointer receiver
+type ptrNamed struct{ A int32 }
+
+func (*ptrNamed) HessianCodecName() string { return "com.example.PtrNamed" }
+
+type holdPtrNamed struct {
+	P *ptrNamed
+	L []ptrNamed
+}
+
+// self-referential container types: the cycle of types passes through no struct
+type recTree []recTree
+type recMap map[string]recMap
+type holdRec struct {
+	T recTree
+	M recMap
+	S zoo.Small
 }
 
 // struct types that are reachable through the KEY position of a map only
@@ -107,6 +165,16 @@ func witnesses(t reflect.Type, g *gen.G, n int) []interface{} {
 			holdIface{L: []interface{}{zoo.Small{Name: "s"}, &zoo.Item{K: "k"}, []interface{}{zoo.Custom{Key: "c"}}, []interface{}{&zoo.Five{A: 1}}},
 				M: map[string]interface{}{"k": zoo.HI64{V: 1}, "l": []interface{}{zoo.HStr{V: "x"}}}},
 			&holdIface{L: []interface{}{[]zoo.W00{{V: 1}}, map[string]interface{}{"deep": &zoo.W01{V: 2}}}})
+	}
+	if t == reflect.TypeOf(ifaceChain{}) {
+		ws = append(ws, &ifaceChain{Items: []interface{}{zoo.Small{Name: "a"}}, Next: &ifaceChain{Items: []interface{}{zoo.Item{K: "b"}}, Next: &ifaceChain{Items: []interface{}{&zoo.Five{A: 1}}}}})
+		loop := &ifaceChain{Items: []interface{}{zoo.HI64{V: 1}}}
+		loop.Next = &ifaceChain{Items: []interface{}{zoo.HStr{V: "x"}}, Next: loop}
+		ws = append(ws, loop)
+	}
+	if t == reflect.TypeOf(twoLists{}) {
+		all := []interface{}{zoo.Small{Name: "a"}, zoo.Item{K: "b"}, &zoo.Five{A: 1}}
+		ws = append(ws, &twoLists{P: all[:1], Q: all}, twoLists{P: all[:0], Q: all[:2]}, &twoLists{P: all, Q: all[:1]})
 	}
 	for i := 0; i < n; i++ {
 		g.Reset()
@@ -159,11 +227,31 @@ func nameDesc(m map[string]string) [][]interface{} {
 }
 
 // customName returns the HessianCodecName of t (or "").
-func customName(t reflect.Type) string {
+// customName: the wire name the type DECLARES (value or pointer receiver); a method that is only
+// promoted from an embedded field is not a declaration of the embedding type (no harness type does both)
+func customName(t reflect.Type) (name string) {
 	if t.Kind() != reflect.Struct && t.Kind() != reflect.Map && t.Kind() != reflect.Slice {
 		return ""
 	}
-	if n, ok := reflect.Zero(t).Interface().(hessian.CodecNamable); ok {
+	if t.Kind() == reflect.Struct {
+		for i := 0; i < t.NumField(); i++ {
+			if f := t.Field(i); f.Anonymous {
+				ft := f.Type
+				for ft.Kind() == reflect.Ptr {
+					ft = ft.Elem()
+				}
+				if _, ok := reflect.New(ft).Interface().(hessian.CodecNamable); ok {
+					return ""
+				}
+			}
+		}
+	}
+	defer func() {
+		if recover() != nil {
+			name = ""
+		}
+	}()
+	if n, ok := reflect.New(t).Interface().(hessian.CodecNamable); ok {
 		return n.HessianCodecName()
 	}
 	return ""
@@ -327,7 +415,7 @@ func runExtract(seed int64, tier, out string, shards, only int) {
 				if _, p := drv.Call(func() { tm, nm = hessian.ExtractTypeNameMap(ws[wi]) }); p || tm == nil {
 					continue
 				}
-				if t.String() == "main.holdIface" || t.String() == "main.deepPtr" {
+				if t.String() == "main.holdIface" || t.String() == "main.deepPtr" || t.String() == "main.bothSlices" {
 					// what an interface holds is not a property of the type: no witness can promise it;
 					// pointers to pointers are not among the supported kinds of C01
 					continue
